@@ -32,7 +32,7 @@ TASK: write ONE realistic change to the library (a diff of non-test .go files in
   (a) the library still compiles (`go build ./...`) and the existing test suite above still passes, unedited;
   (b) the change looks like something a maintainer could plausibly commit (a refactor, an optimisation, a tidy-up, a 'fix' of something else, a copy-paste slip, a changed default) — not sabotage, no dead code, no special-casing of magic values;
   (c) it needs something SPECIFIC to manifest — a particular goroutine interleaving, a fault/crash/disconnect at a particular point, a multi-step sequence of operations, an unusual input or option combination, or two cooperating edits that each look fine alone. Ordinary use (one client connecting, sending a few messages, disconnecting) must still work; a change that any smoke test exposes at once is not wanted;
-  (d) you provide a DEMONSTRATION: a Go test file (put it inside the worktree, e.g. {wt}/engine/zz_{prop.lower()}_demo_test.go or in the package that fits; it may use net/http/httptest, gorilla/websocket client, real time; it must be deterministic or retry internally until the failure shows, finishing within ~60 s) that FAILS with your change and PASSES on the unchanged code. Verify both directions yourself (git stash / git apply -R).
+  (d) you provide a DEMONSTRATION: a Go test file (put it inside the worktree, e.g. {wt}/engine/zz_{prop.lower()}_demo_test.go or in the package that fits; it may use net/http/httptest, gorilla/websocket client, real time; it must be deterministic or retry internally until the failure shows, finishing within ~60 s) that FAILS with your change and PASSES on the unchanged code. Verify both directions yourself with `git diff > /tmp/x.diff; git apply -R /tmp/x.diff; ...; git apply /tmp/x.diff` — do NOT use `git stash` (the stash is shared between worktrees and other people are working in sibling worktrees).
 
 Earlier changes written for this same property (do NOT repeat their mechanism or code site; pick a different clause of the property, a different file/function, or a different kind of trigger):
 {chr(10).join(prev) if prev else "- (none)"}
